@@ -267,7 +267,7 @@ func lastIterIdiom(fn *ssa.Function, v ssa.Value) ssa.Value {
 		if iff == nil {
 			continue
 		}
-		bo, ok := iff.Cond.(*ssa.BinOp)
+		bo, ok := world.CondValue(iff).(*ssa.BinOp)
 		if !ok || bo.Op != token.EQL {
 			continue
 		}
